@@ -1118,3 +1118,5 @@ def install(I):
     install_seq(I)
     install_numpy(I)
     install_misc(I)
+    from . import lmfit_model
+    lmfit_model.install(I)
